@@ -85,6 +85,7 @@ func stableName(n string) string { return posRe.ReplaceAllString(n, "") }
 
 type knownFinding struct {
 	Prop, Obligation, Witness, Text string
+	Sites                           []string
 }
 
 func loadKnownFindings() []knownFinding {
@@ -108,6 +109,8 @@ func loadKnownFindings() []knownFinding {
 				kf.Obligation = strings.TrimPrefix(f, "obligation=")
 			case strings.HasPrefix(f, "witness="):
 				kf.Witness = strings.TrimPrefix(f, "witness=")
+			case strings.HasPrefix(f, "sites="):
+				kf.Sites = strings.Split(strings.TrimPrefix(f, "sites="), ";")
 			}
 		}
 		if i := strings.Index(rest, " -- "); i >= 0 {
@@ -116,6 +119,36 @@ func loadKnownFindings() []knownFinding {
 		out = append(out, kf)
 	}
 	return out
+}
+
+// coversSites: a finding about an inventory obligation may list the functions (sites=f1;f2) it is about; it then
+// suppresses the obligation only while every offending site belongs to one of them, so that a NEW site of the same
+// kind is still reported as a violation.
+func (k knownFinding) coversSites(o *Obligation) bool {
+	if len(k.Sites) == 0 {
+		return true
+	}
+	n := 0
+	for _, ln := range strings.Split(o.Model, "\n") {
+		if !strings.HasPrefix(ln, "  ") {
+			continue
+		}
+		fn := strings.Fields(strings.TrimSpace(ln))
+		if len(fn) == 0 {
+			continue
+		}
+		n++
+		ok := false
+		for _, s := range k.Sites {
+			if fn[0] == s {
+				ok = true
+			}
+		}
+		if !ok {
+			return false
+		}
+	}
+	return n > 0
 }
 
 type checkOpts struct {
@@ -283,6 +316,34 @@ func runCheck(id string, opts checkOpts) *checkResult {
 		}
 		all = append(all, o)
 	}
+	// every tier: the failing histories of the recorded, unrepaired defects of this property (known findings that no
+	// contract clause can express) are replayed on the real code
+	if opts.overlay == nil {
+		for _, spec := range loadReplaySpecs() {
+			mine := false
+			for _, pid := range spec.Open {
+				if pid == id {
+					mine = true
+				}
+			}
+			if !mine {
+				continue
+			}
+			out, confirmed := runReplay(spec, "")
+			o := &Obligation{Fn: "bounded", Kind: "bounded", Label: "finding-replay:" + spec.Run, Goal: "true", decls: newDecls(), Bounded: true, precomputed: true, Solver: "go test (one recorded history on the real code)",
+				Detail: "the failing history of a recorded, unrepaired defect (known_findings.txt) is replayed on the current tree"}
+			o.Model = out
+			switch {
+			case confirmed:
+				o.Status = "sat"
+			case strings.Contains(out, "REPLAY-NOT-REPRODUCED"):
+				o.Status = "unsat"
+			default:
+				o.Status = "unknown"
+			}
+			all = append(all, o)
+		}
+	}
 	// thorough tier: the failing histories of the repaired defects of this property are replayed on the real code
 	// (labelled bounded: a test, never counted as proved)
 	if opts.tier == "thorough" && opts.overlay == nil {
@@ -341,6 +402,9 @@ func runCheck(id string, opts checkOpts) *checkResult {
 		if o.Kind == "aux" {
 			continue
 		}
+		if o.Kind == "bounded" && (strings.HasPrefix(o.Label, "finding-replay:") || strings.HasPrefix(o.Label, "regression-replay:")) {
+			continue // replays of recorded histories run on the unmodified working tree only (not under a mutant overlay)
+		}
 		present[stableName(o.Name())] = true
 	}
 	coverBase := map[string]string{}
@@ -390,7 +454,7 @@ func runCheck(id string, opts checkOpts) *checkResult {
 		name := stableName(o.Name())
 		isKnown := false
 		for _, k := range known {
-			if k.Prop == id && k.Obligation == name {
+			if k.Prop == id && k.Obligation == name && k.coversSites(o) {
 				isKnown = true
 				line := fmt.Sprintf("KNOWN-FINDING: property=%s %s witness=%s %s", id, name, k.Witness, k.Text)
 				if !replayedKnown[name] && opts.tier == "thorough" {
@@ -481,7 +545,7 @@ func runCheck(id string, opts checkOpts) *checkResult {
 		os.MkdirAll(replayDir, 0o755)
 		rp := filepath.Join(replayDir, fmt.Sprintf("%s-%s.replay.txt", id, smtSym(name)))
 		confirmed := writeReplay(rp, id, o, cfg, prog)
-		if o.Kind == "bounded" && strings.HasPrefix(o.Label, "regression-replay:") && strings.Contains(o.Model, "REPLAY-CONFIRMED") {
+		if o.Kind == "bounded" && (strings.HasPrefix(o.Label, "regression-replay:") || strings.HasPrefix(o.Label, "finding-replay:")) && strings.Contains(o.Model, "REPLAY-CONFIRMED") {
 			confirmed = true // the recorded failing history was just run against the real code and reproduced
 		}
 		suffix := ""
